@@ -147,6 +147,22 @@ func checkC14(c *mc.Ctx) {
 		}
 	}
 	if c.Thorough() {
+		// every model value of every tag next to every model value of every tag (ordered pairs in one loop):
+		// a descriptor must account for exactly its own bytes whatever precedes or follows it
+		var all []*astits.Descriptor
+		for _, g := range descGens {
+			all = append(all, g.Gen(true)...)
+		}
+		na := int64(len(all))
+		donep := mc.ParFor(na*na, c.OverBudget, func(i int64) {
+			ds := []*astits.Descriptor{all[i%na], all[i/na]}
+			c14Decode(c, ds, "pair")
+			if i%7 == 0 {
+				c14Encode(c, ds, int(i%3), "pair")
+			}
+		})
+		c.Ev.AddScenario(mc.Scenario{Name: "all ordered pairs of all model values", SpaceSize: na * na, Executed: donep, Exhaustive: donep == na*na, Bound: fmt.Sprintf("%d model values x %d model values, decoded as one loop; every 7th pair also encoded", na, na)})
+		c.Ev.DistinctAdd(donep)
 		nt := int64(len(firsts)) * int64(len(firsts)) * int64(len(firsts))
 		done := mc.ParFor(nt, c.OverBudget, func(i int64) {
 			n := int64(len(firsts))
